@@ -322,6 +322,7 @@ fn gen_cfg(profile: &str, r: &mut Rng) -> PoolCfg {
     };
     let k = max_reqs as usize;
     let max_idle = match profile {
+        "C04" => 32,
         "C15" => *r.pick(&[0, 1, 2, k.saturating_sub(1), k, k + 1]),
         _ => *r.weighted(&[(6, 32usize), (1, 0), (1, 1), (1, 2)]),
     };
@@ -375,6 +376,9 @@ struct Run<'a> {
     /// when the minimiser deletes an earlier Issue
     lmap: BTreeMap<u32, u32>,
     rmap: Vec<u32>,
+    /// per origin index: a cancel happened and background work has not run since, so a
+    /// connection may be on its way back to the pool (dropped inside a waiter channel)
+    dirty_since_cancel: Vec<bool>,
 }
 
 pub struct PoolSim {
@@ -645,6 +649,7 @@ impl<'a> Run<'a> {
                         awaiting_handback: false,
                         taken_step: None,
                         ever_handed_back: false,
+                        last_touch_step: step_no,
                     });
                     w.hss[h].conn = Some(id);
                     w.dials[dial].conn = Some(id);
@@ -772,6 +777,9 @@ impl<'a> Run<'a> {
             }
             Step::Bg => {
                 self.background().await;
+                for d in self.dirty_since_cancel.iter_mut() {
+                    *d = false;
+                }
                 true
             }
             Step::Advance { ms } => {
@@ -829,6 +837,7 @@ impl<'a> Run<'a> {
         let now = self.now_ms();
 
         // ---- snapshot of what the pool could offer right now (for C04 / C05 / C14)
+        let mut maybe_pure = false;
         let (snapshot, inflight_h2, must_not_dial) = {
             let w = self.w.lock();
             let mut snap = vec![];
@@ -872,9 +881,28 @@ impl<'a> Run<'a> {
                 .iter()
                 .enumerate()
                 .any(|(i, r)| r.state == RState::Pending && r.origin_str_eq(&w, i, &ostr) && !w.handoffs.iter().any(|h| h.req == i as u32));
+            // Another HTTP/2 request of this origin that has not been handed a connection yet may
+            // own the in-flight marker: this request may then be a pure waiter, which is released
+            // (with an error) when that attempt ends. Such requests are not judged for C14.
+            let cont = self.case.cfg.continue_after_preemption;
+            maybe_pure = self.reqs.iter().enumerate().any(|(i, r)| {
+                if r.ver != Ver::H2 || w.req_origin[i] != ostr {
+                    return false;
+                }
+                // settled: its attempt is known to be over (so it cannot own the marker any more)
+                let own_dial = w.dials.iter().rev().find(|d| d.owner == Some(i as u32));
+                let waiting = r.state == RState::Pending && !w.handoffs.iter().any(|h| h.req == i as u32);
+                let settled = match own_dial {
+                    Some(d) => !w.attempt_in_flight(d.id),
+                    // never dialed: still waiting, or abandoned before dialing (continues in the
+                    // background only when continue_after_preemption is on)
+                    None => !waiting && !cont,
+                };
+                !settled
+            });
             let expired_possible = self.case.cfg.idle_timeout_ms.map(|t| t > 0).unwrap_or(false);
             let mut mnd = None;
-            if !expired_possible {
+            if !expired_possible && self.case.cfg.max_idle >= 16 {
                 if !h2_reg.is_empty() {
                     // the shared handle never legitimately leaves the pool
                     let c = h2_reg[0];
@@ -895,7 +923,7 @@ impl<'a> Run<'a> {
                         json!({"cause": cause}),
                         format!("an open HTTP/2 connection {} for {} existed when the request was issued", c, ostr),
                     ));
-                } else if !h1_idle.is_empty() && !others_pending {
+                } else if !h1_idle.is_empty() && !others_pending && !self.dirty_since_cancel[origin] {
                     mnd = Some((
                         "idle_not_reused",
                         json!({"cause": "none"}),
@@ -905,6 +933,21 @@ impl<'a> Run<'a> {
             }
             (snap, inflight, mnd)
         };
+        {
+            // Whatever this request takes out of the pool now is no longer "sitting idle", even if
+            // the request is never polled: the idle clock of every candidate restarts here (which
+            // one the pool picks is not observable; restarting all of them is the sound choice).
+            let mut w = self.w.lock();
+            let step = w.step;
+            for (c, _) in &snapshot {
+                let conn = &mut w.conns[*c];
+                conn.last_touch_step = step;
+                conn.last_activity_ms = now;
+                if conn.idle_since.is_some() {
+                    conn.idle_since = Some(now);
+                }
+            }
+        }
         {
             let mut w = self.w.lock();
             let step = w.step;
@@ -939,7 +982,7 @@ impl<'a> Run<'a> {
             issue_step,
             issue_ms: now,
             done_ms: None,
-            had_idle_at_issue: !snapshot.is_empty(),
+            had_idle_at_issue: !snapshot.is_empty() || maybe_pure,
             must_not_dial,
             inflight_h2_at_issue: if ver == Ver::H2 { inflight_h2 } else { None },
             expect: None,
@@ -1107,6 +1150,19 @@ impl<'a> Run<'a> {
                 })
                 .map(|d| d.id)
         };
+        if !had_handoff {
+            // a connection this request had checked out goes back with a fresh idle timestamp
+            let now = self.now_ms();
+            let mut w = self.w.lock();
+            let step = w.step;
+            for c in w.conns.iter_mut().filter(|c| c.origin == ostr) {
+                if c.idle_since.is_some() {
+                    c.idle_since = Some(now);
+                    c.last_activity_ms = now;
+                    c.last_touch_step = step;
+                }
+            }
+        }
         let fut = self.reqs[i].fut.take();
         let r = catch_unwind(AssertUnwindSafe(move || drop(fut)));
         if r.is_err() {
@@ -1114,6 +1170,7 @@ impl<'a> Run<'a> {
         }
         self.reqs[i].state = RState::Cancelled;
         self.reqs[i].expect = None;
+        self.dirty_since_cancel[o] = true;
         let step = self.w.lock().step;
         self.w.lock().ev(3, req as u64, 0);
         self.checkout_ended.push((o, step));
@@ -1126,7 +1183,7 @@ impl<'a> Run<'a> {
             self.preempted.push((d, step));
             self.check_abandoned_now(d, "cancelled");
         }
-        if !had_handoff {
+        if !had_handoff && self.case.cfg.max_idle >= 16 {
             let w = self.w.lock();
             let destroyed: Vec<usize> = before.iter().copied().filter(|c| w.conns[*c].handles_live <= 0).collect();
             drop(w);
@@ -1264,54 +1321,63 @@ impl<'a> Run<'a> {
                 self.preempted.push((d, h.step));
                 self.check_abandoned_now(d, "pre-empted");
             }
-            let (is_h2, first) = {
-                let w = self.w.lock();
-                (w.conns[h.conn].h2, w.conns[h.conn].handoffs == 1)
-            };
-            if is_h2 && first && ri < self.reqs.len() {
-                // registration of a new shareable connection: every live waiter gets a handle
-                let o = self.reqs[ri].origin;
-                for j in 0..self.reqs.len() {
-                    if j == ri || self.reqs[j].origin != o || self.reqs[j].state != RState::Pending {
-                        continue;
-                    }
-                    if self.reqs[j].had_idle_at_issue || self.reqs[j].expect.is_some() || self.reqs[j].issue_step >= h.step {
-                        continue;
-                    }
-                    if self.w.lock().handoffs.iter().any(|x| x.req == j as u32) {
-                        continue;
-                    }
-                    self.reqs[j].expect = Some((h.conn, h.step));
-                    self.out.count("probe.h2_registration_with_live_waiters");
-                }
-            }
         }
 
         // ---- hand-back of an HTTP/1 connection in this step: who must take it? (C14)
-        let handed_back: Vec<(usize, String)> = {
-            let w = self.w.lock();
-            w.conns
-                .iter()
-                .filter(|c| !c.h2 && c.handback_step == Some(cur_step) && c.open && c.idle_since.is_some())
-                .map(|c| (c.id, c.origin.clone()))
+        let reg_events: Vec<(bool, usize, String, bool)> = {
+            let mut w = self.w.lock();
+            let order = std::mem::take(&mut w.reg_events);
+            order
+                .into_iter()
+                .map(|(h2, c)| {
+                    let cc = &w.conns[c];
+                    let usable = cc.open && (h2 || (cc.handback_step == Some(cur_step) && cc.idle_since.is_some()));
+                    (h2, c, cc.origin.clone(), usable)
+                })
                 .collect()
         };
-        for (c, ostr) in handed_back {
-            self.out.count("probe.handback");
+        for (h2, c, ostr, usable) in reg_events {
+            if self.service_dropped {
+                continue;
+            }
+            if usable {
+                self.out.count(if h2 { "probe.h2_registration" } else { "probe.handback" });
+            }
             let mut cands: Vec<usize> = (0..self.reqs.len())
                 .filter(|j| self.reqs[*j].state == RState::Pending && self.origin_str(self.reqs[*j].origin) == ostr)
                 .filter(|j| !self.w.lock().handoffs.iter().any(|x| x.req == *j as u32))
                 .filter(|j| self.reqs[*j].issue_step < cur_step)
                 .collect();
             cands.sort_by_key(|j| self.reqs[*j].issue_step);
-            for j in cands {
+            if !usable {
+                // a dead connection was (perhaps) passed on: whoever may have received it is not judged
+                for j in cands {
+                    self.reqs[j].had_idle_at_issue = true;
+                }
+                continue;
+            }
+            for (pos, j) in cands.iter().copied().enumerate() {
                 if self.reqs[j].expect.is_some() {
-                    continue; // already served by an earlier hand-back
+                    continue; // already served by an earlier hand-back / registration
                 }
                 if self.reqs[j].had_idle_at_issue {
-                    break; // may hold a popped connection instead of a waiter: not judged
+                    if h2 {
+                        continue;
+                    }
+                    // This request may or may not have a live waiter (it may hold a popped
+                    // connection, or be a pure waiter that was released): the connection went to it
+                    // or to somebody behind it. Nobody from here on can be judged any more.
+                    for k in &cands[pos..] {
+                        self.reqs[*k].had_idle_at_issue = true;
+                    }
+                    break;
                 }
                 self.reqs[j].expect = Some((c, cur_step));
+                if h2 {
+                    // a shareable connection is cloned to every live waiter
+                    self.out.count("probe.h2_registration_with_live_waiters");
+                    continue;
+                }
                 // the harness' belief "idle in the pool" no longer holds: it sits in a waiter channel
                 self.w.lock().conns[c].idle_since = None;
                 self.out.count("probe.handback_with_live_waiter");
@@ -1777,6 +1843,7 @@ impl PoolSim {
                 draining: false,
                 lmap: BTreeMap::new(),
                 rmap: vec![],
+                dirty_since_cancel: vec![false; case.cfg.origins.len()],
             };
             match &case.steps {
                 Some(steps) => {
